@@ -11,6 +11,10 @@ Streams and violation keys (stable; matched against known_findings.json):
                                cut (BinaryTree::splitList takes `pos->key` for the nearest point on the
                                other side), query result differs from exhaustive search
   tree:query <kind>            default construction, tree consistent, query result wrong
+  tree:single-leaf <kind>      all points identical (or n = 1): the root is a leaf, IterativeNNQuery casts a TraceNode to TraceLeaf
+  tree:duplicate-points <kind> LC / KHC tree construction recurses without bound when a node holds only copies of one point
+  tree:kernel-metric khc2      KHCTree with a non-linear kernel: KHCTree does not override BinaryTree::kernel(), so the query measures
+                               leaf distances in the Euclidean metric while the cells are bounded in the kernel metric
   tree:bucket>1 <kind>         TreeConstruction(0, bucket>1): leaf keeps one distance for all its points (F4)
   simpleNN:squared-distance    NearestNeighborModel(1/distance weights): brute-force back-end reports
                                squared distances, tree back-end distances (F5)
@@ -113,8 +117,10 @@ def monitor_case(c, out):
     if not out or not out[0].startswith("D n="):
         return [("harness", "no tree built: %s" % (out[0] if out else "<nothing>"))]
     mis = impl_meta(out[0]); n = len(c["pts"])
-    if c["bucket"] > 1: tkey = "tree:bucket>1 " + c["kind"]
+    if re.search(r"nodes=1\b", out[0]): tkey = "tree:single-leaf " + c["kind"]
+    elif c["bucket"] > 1: tkey = "tree:bucket>1 " + c["kind"]
     elif mis > 0: tkey = "tree:split-threshold " + c["kind"]
+    elif c["kind"] == "khc2": tkey = "tree:kernel-metric khc2"
     else: tkey = "tree:query " + c["kind"]
     for l, o in zip(c["body"], out[1:]):
         t = l.split()
@@ -215,8 +221,18 @@ def main():
     tmpd = os.path.join(BUILD, "tmp", PID); os.makedirs(tmpd, exist_ok=True)
     big = ck.tier == "thorough"; rng = ck.rng
 
+    def fragile(c):
+        u = len(set(map(tuple, c["pts"])))
+        return u == 1 or (c["kind"] != "kd" and u < len(c["pts"])) or len(c["pts"]) <= c["bucket"]
+
     def run_impl(cases, tag):
-        return run_cases(exe, [case_lines(c) for c in cases], os.path.join(tmpd, tag + "_impl.txt"))
+        """crash-prone streams (single-leaf trees, LC/KHC trees on data with duplicates) run one process per case"""
+        res = [None] * len(cases)
+        rob = [i for i, c in enumerate(cases) if not fragile(c)]
+        for i, r in zip(rob, run_cases(exe, [case_lines(cases[i]) for i in rob], os.path.join(tmpd, tag + "_impl.txt"))): res[i] = r
+        for i, c in enumerate(cases):
+            if res[i] is None: res[i] = run_cases(exe, [case_lines(c)], os.path.join(tmpd, tag + "_impl1.txt"), timeout=60)[0]
+        return res
 
     # ---- build the case list -------------------------------------------------------------------
     cases = []
@@ -233,9 +249,20 @@ def main():
         for kind, bucket, m, nq in plan:
             for _ in range(m):
                 dim, pts = gen_points(rng, big)
+                while len(set(map(tuple, pts))) < 2: dim, pts = gen_points(rng, big)     # single-leaf trees have their own stream
                 if kind == "khc2": pts = [[max(-6, min(6, x)) for x in p] for p in pts]
-                b = bucket if bucket == 0 else rng.choice([2, 3, 4, 8])
+                if kind in ("lc", "khc", "khc2"):                                        # duplicates crash these constructors: own stream below
+                    pts = [list(p) for p in dict.fromkeys(map(tuple, pts))]
+                b = bucket if bucket == 0 else rng.choice([b for b in (2, 3, 4, 8) if b < len(pts)] or [0])
                 fresh.append(({"kind": kind.replace("P", ""), "bucket": b, "dim": dim, "pts": pts, "body": []}, nq, kind.endswith("P")))
+        for kind in ("lc", "khc", "khc2"):                                             # duplicate points in LC / KHC trees
+            for _ in range(2):
+                pts = [[rng.randint(-4, 4) for _ in range(2)] for _ in range(rng.randint(2, 6))]
+                fresh.append(({"kind": kind, "bucket": 0, "dim": 2, "pts": pts + [list(pts[0])], "body": []}, 2, False))
+        for kind in ("kd", "lc", "khc"):                                               # data sets whose tree is a single leaf
+            for n in (1, 3):
+                p = [rng.randint(-5, 5) for _ in range(2)]
+                fresh.append(({"kind": kind, "bucket": 0, "dim": 2, "pts": [list(p) for _ in range(n)], "body": []}, 2, False))
         # phase 1: build the trees only, to aim queries at the real splitting planes
         o1 = run_impl([c for c, _, _ in fresh], "phase1")
         for (c, nq, isP), (o, rc, e) in zip(fresh, o1):
@@ -255,7 +282,8 @@ def main():
     failing = {}          # key -> list of (case index, message)
     for ci, (c, (o, rc, e)) in enumerate(zip(cases, io)):
         if rc != 0:
-            failing.setdefault("crash " + c["kind"], []).append((ci, "implementation crashed/stopped after %d of %d lines (rc=%s) %s" % (len(o), len(c["body"]) + 1, rc, e.strip()[-200:])))
+            u = len(set(map(tuple, c["pts"])))
+            failing.setdefault(("tree:duplicate-points " if (c["kind"] != "kd" and u < len(c["pts"]) and not o) else "tree:single-leaf " if u == 1 else "crash ") + c["kind"], []).append((ci, "implementation crashed/stopped after %d of %d lines (rc=%s) %s" % (len(o), len(c["body"]) + 1, rc, e.strip()[-200:])))
             continue
         for key, msg in monitor_case(c, o):
             failing.setdefault(key, []).append((ci, msg))
@@ -289,7 +317,7 @@ def main():
     # ---- reporting -----------------------------------------------------------------------------
     def fails_with(c, key):
         o, rc, e = run_impl([c], "shrink")[0]
-        if rc != 0: return key.startswith("crash")
+        if rc != 0: return key.startswith("crash") or key.startswith("tree:single-leaf") or key.startswith("tree:duplicate-points")
         return any(k == key for k, _ in monitor_case(c, o))
 
     def shrink(c, key):
